@@ -117,21 +117,32 @@ fn stmt_paths(st: &SemStmt) -> &Vec<String> {
     }
 }
 
-/// some path prefix is mentioned at least twice
+/// some path prefix is mentioned at least twice — among the statements, or among the pairs of one
+/// inline table at any depth
 fn nontrivial(seq: &[&SemStmt]) -> bool {
-    let mut seen: std::collections::HashSet<&[String]> = Default::default();
-    for st in seq {
-        let p = stmt_paths(st);
-        for n in 1..=p.len() {
-            if seen.contains(&p[..n]) {
-                return true;
+    fn repeated<'a>(paths: impl Iterator<Item = &'a Vec<String>>) -> bool {
+        let mut seen: std::collections::HashSet<&[String]> = Default::default();
+        for p in paths {
+            for n in 1..=p.len() {
+                if seen.contains(&p[..n]) {
+                    return true;
+                }
+            }
+            for n in 1..=p.len() {
+                seen.insert(&p[..n]);
             }
         }
-        for n in 1..=p.len() {
-            seen.insert(&p[..n]);
+        false
+    }
+    fn in_val(v: &SemVal) -> bool {
+        match v {
+            SemVal::Inline(ps) => repeated(ps.iter().map(|(p, _)| p)) || ps.iter().any(|(_, v)| in_val(v)),
+            SemVal::Array(vs) => vs.iter().any(in_val),
+            _ => false,
         }
     }
-    false
+    repeated(seq.iter().map(|s| stmt_paths(s)))
+        || seq.iter().any(|s| matches!(s, SemStmt::KeyVal { val, .. } if in_val(val)))
 }
 
 pub const F12_WHAT: &str = "a dotted key that passes through an array of tables and creates a new sub-table in its last element is accepted (`[[a.b]]` / `[a]` / `b.x.y = 1`)";
@@ -212,9 +223,13 @@ fn enumerate(rep: &mut Report, name: &str, stmts: &[StmtT], n: usize, known_f12:
     }
 }
 
-fn inline_scope(rep: &mut Report, maxpairs: usize) {
-    let ps = paths(&["a", "b"], 3);
-    let vals = [one(), SemVal::Inline(vec![(vec!["a".into()], one())])];
+fn inline_scope(rep: &mut Report, name: &str, maxlen: usize, wide: bool, maxpairs: usize) {
+    let ps = paths(&["a", "b"], maxlen);
+    let mut vals = vec![one(), SemVal::Inline(vec![(vec!["a".into()], one())])];
+    if wide {
+        vals.push(SemVal::Inline(vec![]));
+        vals.push(SemVal::Inline(vec![(vec!["a".into(), "b".into()], one())]));
+    }
     let mut pairs: Vec<(Vec<String>, SemVal)> = vec![];
     for p in &ps {
         for v in &vals {
@@ -232,12 +247,12 @@ fn inline_scope(rep: &mut Report, maxpairs: usize) {
                 idx /= k;
             }
             let stmt = SemStmt::KeyVal { path: vec!["t".into()], val: SemVal::Inline(inl) };
-            st.class(&format!("inline.pairs{len}"));
+            st.class(&format!("{name}.pairs{len}"));
             check_seq(&[&stmt], i.wrapping_mul(0x9E3779B97F4A7C15) >> 40, st, false)
         });
         rep.stats.merge(st);
         if let Some((_, f)) = fail {
-            rep.violation("inline", None, &f);
+            rep.violation(name, None, &f);
             return;
         }
     }
@@ -258,10 +273,50 @@ fn prop_random(t: &mut Tape, st: &mut Stats) -> Result<(), Failure> {
     check_seq(&seq, t.u64(), st, KNOWN_F12.load(std::sync::atomic::Ordering::Relaxed))
 }
 
+fn gen_path(t: &mut Tape, maxlen: usize) -> Vec<String> {
+    let n = 1 + t.below(maxlen);
+    (0..n).map(|_| ["a", "b", "c"][t.weighted(&[5, 4, 1])].to_string()).collect()
+}
+
+fn gen_val(t: &mut Tape, depth: usize) -> SemVal {
+    match if depth == 0 { t.below(2) } else { t.weighted(&[3, 1, 6, 1]) } {
+        0 => one(),
+        1 => SemVal::Array(vec![one()]),
+        2 => {
+            let n = t.below(4);
+            SemVal::Inline((0..n).map(|_| (gen_path(t, 4), gen_val(t, depth - 1))).collect())
+        }
+        _ => {
+            let n = 1 + t.below(2);
+            SemVal::Array((0..n).map(|_| gen_val(t, depth - 1)).collect())
+        }
+    }
+}
+
+/// few statements, long paths, recursively generated inline tables with dotted keys inside
+fn prop_deep(t: &mut Tape, st: &mut Stats) -> Result<(), Failure> {
+    let n = 1 + t.below(5);
+    let mut owned: Vec<SemStmt> = vec![];
+    for _ in 0..n {
+        owned.push(match t.weighted(&[6, 2, 1]) {
+            0 => SemStmt::KeyVal { path: gen_path(t, 5), val: gen_val(t, 3) },
+            1 => SemStmt::Header { path: gen_path(t, 4), aot: false },
+            _ => SemStmt::Header { path: gen_path(t, 4), aot: true },
+        });
+    }
+    let seq: Vec<&SemStmt> = owned.iter().collect();
+    st.class("deep");
+    let maxp = owned.iter().map(|s| stmt_paths(s).len()).max().unwrap_or(0);
+    if maxp >= 4 {
+        st.class("deep.path>=4");
+    }
+    check_seq(&seq, t.u64(), st, KNOWN_F12.load(std::sync::atomic::Ordering::Relaxed))
+}
+
 pub fn run(args: Args) -> ! {
     let mut rep = Report::new("C09", args.tier, args.seed);
     let n = args.tier.pick(3usize, 4usize);
-    rep.rule = format!("exhaustive: every sequence of <= {n} statements from {{[p], [[p]], p = 1, p = [1], p = {{}}, p = {{a = 1}}, p = {{a.b = 1}}}} over the 14 key paths of length <= 3 on {{a, b}} (98 statements), and over the 12 paths of length <= 2 on {{a, b, c}} (84 statements, <= 3); every inline table with <= {} pairs over 14 paths x 2 value kinds; plus proptest-driven random sequences of 5..12 statements; quoted/unquoted key spellings by counter. Oracle: the definition rules of DESIGN.md Appendix A (verdict and merged tree, order included). non-trivial = some path prefix is mentioned at least twice; distinct by text", args.tier.pick(3, 4));
+    rep.rule = format!("exhaustive: every sequence of <= {n} statements from {{[p], [[p]], p = 1, p = [1], p = {{}}, p = {{a = 1}}, p = {{a.b = 1}}}} over the 14 key paths of length <= 3 on {{a, b}} (98 statements), and over the 12 paths of length <= 2 on {{a, b, c}} (84 statements, <= 3); every inline table with <= {} pairs over 14 paths x 2 value kinds, and with <= 3 pairs over the 30 paths of length <= 4 x 4 value kinds (1, {{}}, {{a = 1}}, {{a.b = 1}}); plus proptest-driven random sequences of 5..12 statements, and of 1..5 statements with paths of length <= 5 on {{a, b, c}} and recursively generated inline tables / arrays (depth <= 3, dotted keys of length <= 4 inside); quoted/unquoted key spellings by counter. Oracle: the definition rules of DESIGN.md Appendix A (verdict and merged tree, order included). non-trivial = some path prefix is mentioned at least twice; distinct by text", args.tier.pick(3, 4));
     rep.assumptions = vec!["the transition table of DESIGN.md Appendix A (tomlref semantic layer), calibrated on the toml-test fixtures".into()];
     let known_f12 = rep.is_known("F12");
     KNOWN_F12.store(known_f12, std::sync::atomic::Ordering::Relaxed);
@@ -305,13 +360,20 @@ pub fn run(args: Args) -> ! {
         enumerate(&mut rep, "abc2", &stmts2, 3, known_f12);
     }
     if rep.violations.is_empty() {
-        inline_scope(&mut rep, args.tier.pick(3, 4));
+        inline_scope(&mut rep, "inline", 3, false, args.tier.pick(3, 4));
+    }
+    if rep.violations.is_empty() {
+        if std::env::var("C09_SKIP4").is_err() { inline_scope(&mut rep, "inline4", 4, true, 3); }
     }
     rep.exhaustive = Some(true);
     rep.extra.insert("exhaustive_scope".into(), json!(format!("all sequences of <= {n} of 98 statements ({{a,b}}, paths <= 3), all sequences of <= 3 of 84 statements ({{a,b,c}}, paths <= 2), all inline tables in the stated scope; random sequences are sampled")));
     if rep.violations.is_empty() {
         let run = run_tape("C09.random", &prop_random, 64, args.tier.pick(1_500_000, 10_000_000), args.seed, workers());
         finish_run(&mut rep, "random", run);
+    }
+    if rep.violations.is_empty() {
+        let run = run_tape("C09.deep", &prop_deep, 96, args.tier.pick(1_000_000, 8_000_000), args.seed, workers());
+        finish_run(&mut rep, "deep", run);
     }
     for c in ["valid", "invalid", "skipped-U1.b", "valid-with-shared-prefix"] {
         rep.require_class(c);
